@@ -651,7 +651,7 @@ pub(crate) fn allocate_registers(ops: &[Op]) -> Result<Vec<AllocatedAbstractOp>,
                 }
                 try_count += 1;
                 #[cfg(feature = "fuellabs_sway_verif")]
-                crate::verif_hooks::regalloc::on_spill(try_count, &spills);
+                crate::verif_hooks::regalloc::on_spill(try_count, &updated_ops_before_spill, &spills);
                 updated_ops = spill(&updated_ops_before_spill, &spills);
                 updated_ops_ref = &updated_ops;
             }
